@@ -686,5 +686,6 @@ def groups(tier):
                     "{None,1,7,100}; data columns shuffled"),
         Group("em", gen_em, check_em, nontrivial, engine="E3",
               bound="6 (30) latent-free models: EM == MLE; 26 (150) models from 6 templates with one latent variable (card 2, every 5th card 3), "
-                    "6-16 rows, init_cpds (2/3) or seeded random init (1/3): log-likelihood non-decreasing over max_iter = 0/1..3 (5), tolerance 1e-9"),
+                    "6-16 rows, init_cpds (2/3) or seeded random init (1/3): log-likelihood of iteration 0 (oracle, from init_cpds + MLE) and of get_parameters(max_iter=1..3 (5)) non-decreasing, tolerance 1e-9; "
+                    "get_parameters(max_iter=0) itself is called on every 12th model"),
     ]
